@@ -621,3 +621,11 @@ def instances(tier):       # noqa: F811
     from .common import watson_spline_bounded_instance
     from .common import bingham_trainer_bounded_instance
     return _inst_before_spline(tier) + [watson_spline_bounded_instance('C09'), bingham_trainer_bounded_instance('C09')]
+
+
+_instances_before_simplex = instances
+
+
+def instances(tier):       # noqa: F811
+    from .common import simplex_lemma_instances
+    return _instances_before_simplex(tier) + simplex_lemma_instances('C09')
